@@ -10,7 +10,7 @@ rsync -a --exclude .git /repo/ "$d/repo/"; mkdir -p "$d/verif"; cp known_finding
 if ! (cd "$d/repo" && patch -p1 -s --no-backup-if-mismatch < "$DIFF") >/dev/null 2>&1; then echo "NEUTRAL $DIFF: does not apply"; rm -rf "$d"; exit 3; fi
 bad=""
 for p in $PROPS; do
-	out=$(bin/jsvet -prop "$p" -tier quick -repo "$d/repo" -verif "$d/verif" 2>&1); rc=$?
+	out=$(JSVET_MAX_SECONDS=120 timeout 200 bin/jsvet -prop "$p" -tier quick -repo "$d/repo" -verif "$d/verif" 2>&1); rc=$?
 	if [ $rc -ne 0 ]; then bad="$bad $p"; echo "NEUTRAL $DIFF: $p alarms:"; printf '%s\n' "$out" | grep -E "violation rule=" | cut -c1-400 | head -6; fi
 done
 rm -rf "$d"
